@@ -291,7 +291,6 @@ theorem union_perm_aux (self other d : Db) (hs : self.WF) (ho : other.WF) (h : u
       · cases h
 
 theorem subset_filter_aux (db : Db) (q : Query) (hdb : ∀ r ∈ db.records, r.start < r.stop)
-    (hcol : hasColumn q = true ∨ hasWindow q = false)
     (sel : ∀ (t : List Rec) , (∀ r ∈ t, r.start < r.stop) → selectTable t q = linearScan t q) :
     ∃ d, subset db q = .ok d ∧ d.kind = db.kind ∧ d.records = linearScan db.records q := by
   unfold subset
@@ -299,24 +298,18 @@ theorem subset_filter_aux (db : Db) (q : Query) (hdb : ∀ r ∈ db.records, r.s
   · rename_i hl
     refine ⟨_, rfl, rfl, ?_⟩
     rw [empty_records, records_nil_of_len hl]; rfl
-  · split
-    · rename_i hw
-      rcases hcol with h | h
-      · simp [h] at hw
-      · simp [h] at hw
-    · refine ⟨_, rfl, rfl, ?_⟩
-      unfold Db.records at hdb ⊢
-      simp only []
-      generalize db.tables = ts at hdb
-      unfold linearScan
-      induction ts with
-      | nil => rfl
-      | cons t ts ih =>
-        simp only [List.map_cons, List.flatMap_cons, List.filter_append]
-        rw [ih (fun r hr => hdb r (by simp only [List.flatMap_cons, List.mem_append]; exact Or.inr hr))]
-        rw [sel t.2 (fun r hr => hdb r (by simp only [List.flatMap_cons, List.mem_append]; exact Or.inl hr))]
-        rfl
-
+  · refine ⟨_, rfl, rfl, ?_⟩
+    unfold Db.records at hdb ⊢
+    simp only []
+    generalize db.tables = ts at hdb
+    unfold linearScan
+    induction ts with
+    | nil => rfl
+    | cons t ts ih =>
+      simp only [List.map_cons, List.flatMap_cons, List.filter_append]
+      rw [ih (fun r hr => hdb r (by simp only [List.flatMap_cons, List.mem_append]; exact Or.inr hr))]
+      rw [sel t.2 (fun r hr => hdb r (by simp only [List.flatMap_cons, List.mem_append]; exact Or.inl hr))]
+      rfl
 
 theorem gbCoords_positions (l : Loc) (hl : ∀ seg ∈ l.flat, seg.1 ≤ seg.2.1) (p0 : Int) :
     covers (gbCoords l) p0 ↔ ∃ seg ∈ l.flat, covers1 seg.1 seg.2.1 (p0 + 1) := by
